@@ -255,6 +255,11 @@ def run(spec, ctx):
         rng = ctx.rng(idx)
         tmp = boot.scratch() / f"c09_{idx}"
         tmp.mkdir()
+        # small chunk configurations make the appends of join (and the stacks written by
+        # split) cross HDF5 chunk boundaries with and without remainder
+        from dclab.rtdc_dataset import writer
+        writer.CHUNK_SIZE_BYTES = int(rng.choice([256, 2048, 1024 ** 2]))
+        ctx.count(f"chunk_bytes[{writer.CHUNK_SIZE_BYTES}]")
         try:
             if idx % 2 == 0:
                 case, nt = run_split_case(ctx, idx, rng, tmp)
@@ -268,4 +273,5 @@ def run(spec, ctx):
         except Exception as exc:
             ctx.error(f"case {idx}", exc)
         finally:
+            writer.CHUNK_SIZE_BYTES = 1024 ** 2
             shutil.rmtree(tmp, ignore_errors=True)
